@@ -39,14 +39,32 @@ pub struct Measured {
     pub micros: u128,
 }
 
-pub fn measure(t: &Target, input: &[u8]) -> Measured {
+fn measure_once(t: &Target, input: &[u8], cpu: bool) -> Measured {
     alloc::reset_peak();
     let base = alloc::current();
-    let t0 = thread_cpu_us();
+    let w0 = Instant::now();
+    let c0 = if cpu { thread_cpu_us() } else { 0 };
     let outcome = mc::catch(|| (t.run)(input));
-    let micros = thread_cpu_us().saturating_sub(t0);
+    let micros = if cpu { thread_cpu_us().saturating_sub(c0) } else { w0.elapsed().as_micros() };
     let peak = alloc::peak().saturating_sub(base);
     Measured { outcome, peak, micros }
+}
+
+/// Run one call.  Time is wall-clock first (no syscall); only when that exceeds the limit is the
+/// call repeated (decoders are pure) measuring the thread's CPU time, up to three times, and the
+/// minimum kept — so a descheduled thread on a shared box is not reported as a slow decoder.
+pub fn measure(t: &Target, input: &[u8]) -> Measured {
+    let mut m = measure_once(t, input, false);
+    if m.micros > WALL_LIMIT_US {
+        for _ in 0..3 {
+            let again = measure_once(t, input, true);
+            m.micros = m.micros.min(again.micros);
+            if m.micros <= WALL_LIMIT_US {
+                break;
+            }
+        }
+    }
+    m
 }
 
 /// CPU time of the calling thread in µs (robust against a loaded machine; a hang is caught by the
@@ -74,32 +92,38 @@ fn signature(group: &str, class: &str, msg: &str) -> String {
 }
 
 // ---------------------------------------------------------------------------------------------
-// child
+// child: zygote + forked workers, batched reporting
 // ---------------------------------------------------------------------------------------------
 
-fn emit_result(idx: usize, ti: usize, t: &Target, input: &[u8]) {
-    let out = std::io::stdout();
-    {
-        let mut o = out.lock();
-        let _ = writeln!(o, "S {idx} {ti} {}", input.len());
-        let _ = o.flush();
-    }
-    let m = measure(t, input);
-    let mut o = out.lock();
-    let _ = match &m.outcome {
-        Ok(Ok(())) => writeln!(o, "R o {} {}", m.peak, m.micros),
-        Ok(Err(k)) => writeln!(o, "R e {} {} {}", m.peak, m.micros, k.replace(['\n', ' '], "_")),
-        Err(p) => writeln!(o, "R p {} {} {}", m.peak, m.micros, p.replace('\n', " ")),
-    };
-    let _ = o.flush();
-}
+const BATCH: usize = 512;
+// shared cells
+const C_IDX: usize = 0;
+const C_TI: usize = 1;
+const C_LEN: usize = 2;
+const C_RUNNING: usize = 3;
+const C_BFIRST: usize = 4;
+const C_OK: usize = 5;
+const C_ERR: usize = 6;
+const C_PANICS: usize = 7;
+const C_MAXPEAK: usize = 8;
+const C_MAXUS: usize = 9;
+const C_BVALID: usize = 10;
 
-/// Shared cell between the zygote and its forked worker: [index, target, len, running-flag].
+/// Cells shared between the zygote, its forked worker and (when file-backed) the parent.
 struct Shared(*mut u64);
 impl Shared {
     fn new() -> Shared {
-        let p = unsafe { libc::mmap(std::ptr::null_mut(), 4096, libc::PROT_READ | libc::PROT_WRITE, libc::MAP_SHARED | libc::MAP_ANONYMOUS, -1, 0) };
-        assert!(p != libc::MAP_FAILED, "mmap shared cell");
+        let p = unsafe {
+            match std::env::var("C13_PROGRESS").ok().and_then(|p| std::fs::OpenOptions::new().read(true).write(true).create(true).truncate(false).open(p).ok()) {
+                Some(f) => {
+                    use std::os::unix::io::AsRawFd;
+                    let _ = f.set_len(4096);
+                    libc::mmap(std::ptr::null_mut(), 4096, libc::PROT_READ | libc::PROT_WRITE, libc::MAP_SHARED, f.as_raw_fd(), 0)
+                }
+                None => libc::mmap(std::ptr::null_mut(), 4096, libc::PROT_READ | libc::PROT_WRITE, libc::MAP_SHARED | libc::MAP_ANONYMOUS, -1, 0),
+            }
+        };
+        assert!(p != libc::MAP_FAILED, "mmap shared cells");
         Shared(p.cast())
     }
     fn set(&self, i: usize, v: u64) {
@@ -108,27 +132,100 @@ impl Shared {
     fn get(&self, i: usize) -> u64 {
         unsafe { std::ptr::read_volatile(self.0.add(i)) }
     }
+    fn max(&self, i: usize, v: u64) {
+        if v > self.get(i) {
+            self.set(i, v);
+        }
+    }
 }
 
-/// The body a worker runs for inputs `[lo, hi)` of a family (selftest families have one input).
+fn put(line: &str) {
+    let out = std::io::stdout();
+    let mut o = out.lock();
+    let _ = o.write_all(line.as_bytes());
+    let _ = o.write_all(b"\n");
+    let _ = o.flush();
+}
+
+struct Batcher<'a> {
+    shared: &'a Shared,
+    kinds: BTreeMap<String, u64>,
+    last: usize,
+}
+impl<'a> Batcher<'a> {
+    fn new(shared: &'a Shared) -> Self {
+        shared.set(C_BVALID, 0);
+        Batcher { shared, kinds: BTreeMap::new(), last: 0 }
+    }
+    fn flush(&mut self) {
+        let s = self.shared;
+        if s.get(C_BVALID) == 1 {
+            let kinds = if self.kinds.is_empty() { "-".to_string() } else { self.kinds.iter().map(|(k, v)| format!("{k}={v}")).collect::<Vec<_>>().join(";") };
+            put(&format!("B {} {} {} {} {} {} {} {kinds}", s.get(C_BFIRST), self.last, s.get(C_OK), s.get(C_ERR), s.get(C_PANICS), s.get(C_MAXPEAK), s.get(C_MAXUS)));
+        }
+        s.set(C_BVALID, 0);
+        self.kinds.clear();
+    }
+    fn run(&mut self, idx: usize, ti: usize, t: &Target, input: &[u8]) {
+        let s = self.shared;
+        if s.get(C_BVALID) == 0 {
+            s.set(C_BFIRST, idx as u64);
+            for c in [C_OK, C_ERR, C_PANICS, C_MAXPEAK, C_MAXUS] {
+                s.set(c, 0);
+            }
+            s.set(C_BVALID, 1);
+        }
+        s.set(C_IDX, idx as u64);
+        s.set(C_TI, ti as u64);
+        s.set(C_LEN, input.len() as u64);
+        s.set(C_RUNNING, 1);
+        let m = measure(t, input);
+        s.set(C_RUNNING, 0);
+        self.last = idx;
+        s.max(C_MAXPEAK, m.peak as u64);
+        s.max(C_MAXUS, m.micros as u64);
+        match &m.outcome {
+            Ok(Ok(())) => s.set(C_OK, s.get(C_OK) + 1),
+            Ok(Err(k)) => {
+                s.set(C_ERR, s.get(C_ERR) + 1);
+                *self.kinds.entry(format!("{}:{}", t.sig_group, k.replace([' ', ';', '=', '\n'], "_"))).or_default() += 1;
+            }
+            Err(p) => {
+                s.set(C_PANICS, s.get(C_PANICS) + 1);
+                put(&format!("P {idx} {ti} {} {} {} {}", input.len(), m.peak, m.micros, p.replace('\n', " ")));
+            }
+        }
+        if m.peak > budget(input.len()) {
+            put(&format!("O {idx} {ti} {} {} {}", input.len(), m.peak, m.micros));
+        }
+        if m.micros > WALL_LIMIT_US {
+            put(&format!("T {idx} {ti} {} {} {}", input.len(), m.peak, m.micros));
+        }
+        if (idx + 1) % BATCH == 0 {
+            self.flush();
+        }
+    }
+}
+
+/// The body a worker runs for inputs `[lo, hi)` of a family.
 fn worker(family: &str, lo: usize, hi: usize, thorough: bool, shared: &Shared) {
+    let mut b = Batcher::new(shared);
     if let Some(kind) = family.strip_prefix("selftest-") {
         if lo == 0 {
-            shared.set(0, 0);
-            shared.set(1, 0);
-            shared.set(2, 0);
-            shared.set(3, 1);
-            let out = std::io::stdout();
-            {
-                let mut o = out.lock();
-                let _ = writeln!(o, "S 0 0 0");
-                let _ = o.flush();
-            }
-            families::selftest(kind);
-            let mut o = out.lock();
-            let _ = writeln!(o, "R o 0 0");
-            let _ = o.flush();
-            shared.set(3, 0);
+            let kind = kind.to_string();
+            let t = Target {
+                name: "selftest".into(),
+                group: "selftest",
+                sig_group: "selftest",
+                min_len: 0,
+                child_only: true,
+                run: Box::new(move |_b: &[u8]| {
+                    families::selftest(&kind);
+                    Ok(())
+                }),
+            };
+            b.run(0, 0, &t, &[]);
+            b.flush();
         }
         return;
     }
@@ -145,12 +242,8 @@ fn worker(family: &str, lo: usize, hi: usize, thorough: bool, shared: &Shared) {
             unsafe { libc::_exit(3) };
         };
         if lo == 0 {
-            shared.set(0, 0);
-            shared.set(1, ti as u64);
-            shared.set(2, input.len() as u64);
-            shared.set(3, 1);
-            emit_result(0, ti, &targets[ti], &input);
-            shared.set(3, 0);
+            b.run(0, ti, &targets[ti], &input);
+            b.flush();
         }
         return;
     }
@@ -166,19 +259,15 @@ fn worker(family: &str, lo: usize, hi: usize, thorough: bool, shared: &Shared) {
             return;
         }
         let input = build();
-        shared.set(0, idx as u64);
-        shared.set(1, ti as u64);
-        shared.set(2, input.len() as u64);
-        shared.set(3, 1);
-        emit_result(idx, ti, &targets[ti], &input);
-        shared.set(3, 0);
+        b.run(idx, ti, &targets[ti], &input);
     });
+    b.flush();
 }
 
 /// `--child <family> <lo> <hi> <tier>`: a zygote that forks one worker per stretch of inputs; when a
-/// worker dies (abort on allocation failure, stack overflow, …) the zygote reports which input
-/// killed it (`D` line) and forks the next worker right after that input.  fork() instead of
-/// re-exec keeps the cost of a fatal input at ~1 ms.
+/// worker dies (abort on allocation failure, stack overflow, …) the zygote reports the batch
+/// counters and which input killed it (`D` line) and forks the next worker right after that input.
+/// fork() instead of re-exec keeps the cost of a fatal input at ~1 ms.
 fn child_main(args: &[String]) -> ! {
     let family = args.get(0).cloned().unwrap_or_default();
     let lo: usize = args.get(1).and_then(|s| s.parse().ok()).unwrap_or(0);
@@ -186,7 +275,6 @@ fn child_main(args: &[String]) -> ! {
     let thorough = args.get(3).map(|s| s == "thorough").unwrap_or(false);
     mc::quiet_panics();
     let shared = Shared::new();
-    let out = std::io::stdout();
     let mut cur = lo;
     let mut deaths = 0u32;
     loop {
@@ -195,7 +283,8 @@ fn child_main(args: &[String]) -> ! {
             eprintln!("pipe failed");
             std::process::exit(4);
         }
-        shared.set(3, 0);
+        shared.set(C_RUNNING, 0);
+        shared.set(C_BVALID, 0);
         let pid = unsafe { libc::fork() };
         if pid < 0 {
             eprintln!("fork failed");
@@ -211,7 +300,6 @@ fn child_main(args: &[String]) -> ! {
             unsafe { libc::_exit(0) };
         }
         unsafe { libc::close(fds[1]) };
-        // drain the worker's stderr (EOF when it exits); keep the tail
         let mut tail: Vec<u8> = Vec::new();
         let mut buf = [0u8; 4096];
         loop {
@@ -229,9 +317,7 @@ fn child_main(args: &[String]) -> ! {
         let mut status = 0i32;
         unsafe { libc::waitpid(pid, &mut status, 0) };
         if libc::WIFEXITED(status) && libc::WEXITSTATUS(status) == 0 {
-            let mut o = out.lock();
-            let _ = writeln!(o, "Z");
-            let _ = o.flush();
+            put("Z");
             std::process::exit(0);
         }
         let err = String::from_utf8_lossy(&tail).to_string();
@@ -246,23 +332,23 @@ fn child_main(args: &[String]) -> ! {
         } else {
             ("exit", format!("exit code {}: {}", libc::WEXITSTATUS(status), err.lines().last().unwrap_or("")))
         };
-        let running = shared.get(3) == 1;
-        let idx = shared.get(0) as usize;
-        let mut o = out.lock();
+        let running = shared.get(C_RUNNING) == 1;
+        let idx = shared.get(C_IDX) as usize;
+        // counters of the inputs the dead worker had completed since its last flush
+        if shared.get(C_BVALID) == 1 && (shared.get(C_OK) + shared.get(C_ERR) + shared.get(C_PANICS)) > 0 {
+            let last = if running { idx.saturating_sub(1) } else { idx };
+            put(&format!("B {} {} {} {} {} {} {} -", shared.get(C_BFIRST), last, shared.get(C_OK), shared.get(C_ERR), shared.get(C_PANICS), shared.get(C_MAXPEAK), shared.get(C_MAXUS)));
+        }
         if running {
-            let _ = writeln!(o, "D {idx} {} {} {class} {}", shared.get(1), shared.get(2), detail.replace('\n', " "));
+            put(&format!("D {idx} {} {} {class} {}", shared.get(C_TI), shared.get(C_LEN), detail.replace('\n', " ")));
             cur = idx + 1;
         } else {
-            let _ = writeln!(o, "X {cur} {class} {}", detail.replace('\n', " "));
-            cur += 1;
+            put(&format!("X {cur} {class} {}", detail.replace('\n', " ")));
+            cur = (idx + 1).max(cur + 1);
         }
-        let _ = o.flush();
-        drop(o);
         deaths += 1;
-        if cur >= hi || deaths > 200_000 {
-            let mut o = out.lock();
-            let _ = writeln!(o, "Z");
-            let _ = o.flush();
+        if cur >= hi || deaths > 500_000 {
+            put("Z");
             std::process::exit(0);
         }
     }
@@ -274,7 +360,7 @@ fn child_main(args: &[String]) -> ! {
 
 #[derive(Debug, Clone)]
 struct Death {
-    class: &'static str, // alloc | stack | hang | signal | exit
+    class: &'static str, // hang | exit | signal (zygote-level endings)
     detail: String,
 }
 
@@ -304,60 +390,35 @@ struct Viol {
     what: String,
 }
 
-enum Line {
-    Start(usize, usize, usize),
-    Res(char, usize, u128, String),
-    /// worker died while running input (idx, target, len): class, detail
-    Died(usize, usize, usize, String, String),
-    /// worker died outside any input
-    Stray(usize, String),
-    End,
-}
-
-fn parse(line: &str) -> Option<Line> {
-    let (tag, rest) = line.split_once(' ').unwrap_or((line, ""));
-    let take = |r: &str, n: usize| -> Option<(Vec<String>, String)> {
-        let mut parts: Vec<String> = Vec::new();
-        let mut rem = r;
-        for _ in 0..n {
-            let (a, b) = rem.split_once(' ').unwrap_or((rem, ""));
-            if a.is_empty() {
-                return None;
-            }
-            parts.push(a.to_string());
-            rem = b;
+fn fields(rest: &str, n: usize) -> Option<(Vec<&str>, &str)> {
+    let mut parts = Vec::new();
+    let mut rem = rest;
+    for _ in 0..n {
+        let (a, b) = rem.split_once(' ').unwrap_or((rem, ""));
+        if a.is_empty() {
+            return None;
         }
-        Some((parts, rem.to_string()))
-    };
-    match tag {
-        "S" => {
-            let (p, _) = take(rest, 3)?;
-            Some(Line::Start(p[0].parse().ok()?, p[1].parse().ok()?, p[2].parse().ok()?))
-        }
-        "R" => {
-            let (p, msg) = take(rest, 3)?;
-            Some(Line::Res(p[0].chars().next()?, p[1].parse().ok()?, p[2].parse().ok()?, msg))
-        }
-        "D" => {
-            let (p, detail) = take(rest, 4)?;
-            Some(Line::Died(p[0].parse().ok()?, p[1].parse().ok()?, p[2].parse().ok()?, p[3].clone(), detail))
-        }
-        "X" => {
-            let (p, detail) = take(rest, 2)?;
-            Some(Line::Stray(p[0].parse().ok()?, format!("{} {detail}", p[1])))
-        }
-        "Z" => Some(Line::End),
-        _ => None,
+        parts.push(a);
+        rem = b;
     }
+    Some((parts, rem))
 }
 
 static CHILDREN: AtomicU64 = AtomicU64::new(0);
+static PROGRESS_SEQ: AtomicU64 = AtomicU64::new(0);
 
-/// Run one child over `[lo, hi)`; returns (index after the last completed input, death if any).
+fn tinfo(targets: &[Target], ti: usize) -> (String, &'static str) {
+    targets.get(ti).map(|t| (t.name.clone(), t.sig_group)).unwrap_or((format!("selftest#{ti}"), "selftest"))
+}
+
+/// Run one exec'd child (zygote) over `[lo, hi)`; returns (index to resume at, zygote-level death).
 fn run_child(family: &str, lo: usize, hi: usize, thorough: bool, targets: &[Target], st: &mut FamilyStats) -> (usize, Option<Death>) {
     let exe = std::env::current_exe().expect("current_exe");
+    let progress = mc::scratch_root().join(format!("progress-{}.bin", PROGRESS_SEQ.fetch_add(1, Ordering::Relaxed)));
+    let _ = std::fs::write(&progress, vec![0u8; 4096]);
     let mut cmd = Command::new(exe);
     cmd.arg("--child").arg(family).arg(lo.to_string()).arg(hi.to_string()).arg(if thorough { "thorough" } else { "quick" });
+    cmd.env("C13_PROGRESS", &progress);
     cmd.stdin(Stdio::null()).stdout(Stdio::piped()).stderr(Stdio::piped());
     unsafe {
         cmd.pre_exec(|| {
@@ -376,7 +437,7 @@ fn run_child(family: &str, lo: usize, hi: usize, thorough: bool, targets: &[Targ
     }
     let mut child = match cmd.spawn() {
         Ok(c) => c,
-        Err(e) => return (lo, Some(Death { class: "exit", detail: format!("spawn failed: {e}") })),
+        Err(e) => return (lo + 1, Some(Death { class: "exit", detail: format!("spawn failed: {e}") })),
     };
     CHILDREN.fetch_add(1, Ordering::Relaxed);
     st.children += 1;
@@ -395,67 +456,104 @@ fn run_child(family: &str, lo: usize, hi: usize, thorough: bool, targets: &[Targ
         let _ = stderr.read_to_end(&mut s);
         String::from_utf8_lossy(&s[s.len().saturating_sub(2000)..]).to_string()
     });
-    let mut current: Option<(usize, usize, usize)> = None;
+    let read_progress = |p: &std::path::Path| -> [u64; 4] {
+        let mut out = [0u64; 4];
+        if let Ok(b) = std::fs::read(p) {
+            for (i, o) in out.iter_mut().enumerate() {
+                if b.len() >= (i + 1) * 8 {
+                    let mut a = [0u8; 8];
+                    a.copy_from_slice(&b[i * 8..i * 8 + 8]);
+                    *o = u64::from_ne_bytes(a);
+                }
+            }
+        }
+        out
+    };
     let mut next = lo;
     let mut finished = false;
-    let mut timed_out = false;
+    let mut timed_out: Option<[u64; 4]> = None;
+    let mut last_progress = read_progress(&progress);
     loop {
         match rx.recv_timeout(CHILD_SILENCE_TIMEOUT) {
-            Ok(line) => match parse(&line) {
-                Some(Line::Start(i, t, l)) => current = Some((i, t, l)),
-                Some(Line::Res(c, peak, us, msg)) => {
-                    let Some((i, ti, len)) = current.take() else { continue };
-                    next = i + 1;
-                    st.inputs += 1;
-                    st.max_peak = st.max_peak.max(peak);
-                    st.max_micros = st.max_micros.max(us);
-                    let Some(tt) = targets.get(ti) else { continue };
-                    let tname = &tt.name;
-                    let tgroup = tt.sig_group;
-                    let mut key = family.as_bytes().to_vec();
-                    key.extend_from_slice(&(i as u64).to_le_bytes());
-                    st.keys.push(Report::key(&key));
-                    match c {
-                        'o' => st.ok += 1,
-                        'e' => {
-                            st.err += 1;
-                            *st.err_kinds.entry(format!("{}:{}", targets[ti].sig_group, msg)).or_default() += 1;
+            Ok(line) => {
+                let (tag, rest) = line.split_once(' ').unwrap_or((line.as_str(), ""));
+                match tag {
+                    "B" => {
+                        let Some((p, kinds)) = fields(rest, 7) else { continue };
+                        let n = |i: usize| p[i].parse::<u64>().unwrap_or(0);
+                        let (first, last) = (n(0) as usize, n(1) as usize);
+                        st.ok += n(2);
+                        st.err += n(3);
+                        st.panics += n(4);
+                        st.inputs += n(2) + n(3) + n(4);
+                        st.max_peak = st.max_peak.max(n(5) as usize);
+                        st.max_micros = st.max_micros.max(u128::from(n(6)));
+                        next = next.max(last + 1);
+                        for i in first..=last {
+                            let mut key = family.as_bytes().to_vec();
+                            key.extend_from_slice(&(i as u64).to_le_bytes());
+                            st.keys.push(Report::key(&key));
                         }
-                        _ => {
-                            st.panics += 1;
-                            st.violations.push(Viol { sig: signature(tgroup, "panic", &msg), family: family.into(), index: i, target: tname.clone(), len, what: format!("panic: {msg}") });
+                        if kinds != "-" {
+                            for kv in kinds.split(';') {
+                                if let Some((k, v)) = kv.rsplit_once('=') {
+                                    *st.err_kinds.entry(k.to_string()).or_default() += v.parse::<u64>().unwrap_or(0);
+                                }
+                            }
                         }
                     }
-                    if peak > budget(len) {
-                        st.over_budget += 1;
-                        st.violations.push(Viol { sig: signature(tgroup, "alloc", ""), family: family.into(), index: i, target: tname.clone(), len, what: format!("peak allocation {peak} B for a {len}-byte input (budget {})", budget(len)) });
+                    "P" | "O" | "T" => {
+                        let Some((p, msg)) = fields(rest, 5) else { continue };
+                        let i: usize = p[0].parse().unwrap_or(0);
+                        let ti: usize = p[1].parse().unwrap_or(usize::MAX);
+                        let len: usize = p[2].parse().unwrap_or(0);
+                        let (tname, tgroup) = tinfo(targets, ti);
+                        let (class, what) = match tag {
+                            "P" => ("panic", format!("panic: {msg}")),
+                            "O" => {
+                                st.over_budget += 1;
+                                ("alloc", format!("peak allocation {} B for a {len}-byte input (budget {})", p[3], budget(len)))
+                            }
+                            _ => {
+                                st.over_time += 1;
+                                ("hang", format!("{} µs of CPU", p[4]))
+                            }
+                        };
+                        st.violations.push(Viol { sig: signature(tgroup, class, msg), family: family.into(), index: i, target: tname, len, what });
                     }
-                    if us > WALL_LIMIT_US {
-                        st.over_time += 1;
-                        st.violations.push(Viol { sig: signature(tgroup, "hang", ""), family: family.into(), index: i, target: tname.clone(), len, what: format!("{us} µs") });
+                    "D" => {
+                        let Some((p, detail)) = fields(rest, 4) else { continue };
+                        let i: usize = p[0].parse().unwrap_or(0);
+                        let ti: usize = p[1].parse().unwrap_or(usize::MAX);
+                        let len: usize = p[2].parse().unwrap_or(0);
+                        next = next.max(i + 1);
+                        st.inputs += 1;
+                        *st.deaths.entry(p[3].to_string()).or_default() += 1;
+                        let (tname, tgroup) = tinfo(targets, ti);
+                        st.violations.push(Viol { sig: signature(tgroup, p[3], detail), family: family.into(), index: i, target: tname, len, what: detail.to_string() });
                     }
+                    "X" => {
+                        let Some((p, detail)) = fields(rest, 2) else { continue };
+                        let i: usize = p[0].parse().unwrap_or(0);
+                        next = next.max(i + 1);
+                        *st.deaths.entry("outside-input".into()).or_default() += 1;
+                        st.violations.push(Viol { sig: "harness:worker-died-outside-an-input".into(), family: family.into(), index: i, target: String::new(), len: 0, what: format!("{} {detail}", p[1]) });
+                    }
+                    "Z" => {
+                        finished = true;
+                        break;
+                    }
+                    _ => {}
                 }
-                Some(Line::Died(i, ti, len, class, detail)) => {
-                    current = None;
-                    next = i + 1;
-                    st.inputs += 1;
-                    *st.deaths.entry(class.clone()).or_default() += 1;
-                    let (tname, tgroup) = targets.get(ti).map(|t| (t.name.clone(), t.sig_group)).unwrap_or((format!("selftest#{ti}"), "selftest"));
-                    st.violations.push(Viol { sig: signature(tgroup, &class, &detail), family: family.into(), index: i, target: tname, len, what: detail });
-                }
-                Some(Line::Stray(i, detail)) => {
-                    next = i + 1;
-                    *st.deaths.entry("outside-input".into()).or_default() += 1;
-                    st.violations.push(Viol { sig: "harness:worker-died-outside-an-input".into(), family: family.into(), index: i, target: String::new(), len: 0, what: detail });
-                }
-                Some(Line::End) => {
-                    finished = true;
-                    break;
-                }
-                None => {}
-            },
+            }
             Err(std::sync::mpsc::RecvTimeoutError::Timeout) => {
-                timed_out = true;
+                // silent: still making progress through a batch, or stuck on one input?
+                let now = read_progress(&progress);
+                if now != last_progress {
+                    last_progress = now;
+                    continue;
+                }
+                timed_out = Some(now);
                 unsafe { libc::kill(-(child.id() as i32), libc::SIGKILL) };
                 let _ = child.kill();
                 break;
@@ -466,6 +564,7 @@ fn run_child(family: &str, lo: usize, hi: usize, thorough: bool, targets: &[Targ
     let status = child.wait();
     let _ = reader.join();
     let err_tail = errt.join().unwrap_or_default();
+    let _ = std::fs::remove_file(&progress);
     if finished {
         if let Ok(s) = &status {
             if s.success() {
@@ -473,32 +572,25 @@ fn run_child(family: &str, lo: usize, hi: usize, thorough: bool, targets: &[Targ
             }
         }
     }
-    // abnormal end: attribute to the input that was running
-    let class_detail: (&'static str, String) = if timed_out {
-        ("hang", format!("no progress for {} s; killed", CHILD_SILENCE_TIMEOUT.as_secs()))
-    } else if err_tail.contains("has overflowed its stack") {
-        ("stack", "stack overflow (SIGSEGV on guard page → runtime abort)".into())
-    } else if err_tail.contains("memory allocation of") {
-        let l = err_tail.lines().find(|l| l.contains("memory allocation of")).unwrap_or("").to_string();
-        ("alloc", format!("{l} (abort)"))
-    } else {
-        match &status {
-            Ok(s) if s.signal() == Some(libc::SIGSEGV) => ("stack", "SIGSEGV".into()),
-            Ok(s) if s.signal().is_some() => ("signal", format!("signal {}", s.signal().unwrap_or(0))),
-            Ok(s) => ("exit", format!("exit code {:?}; stderr: {}", s.code(), err_tail.lines().last().unwrap_or(""))),
-            Err(e) => ("exit", format!("wait failed: {e}")),
+    if let Some(p) = timed_out {
+        let (i, ti, len, running) = (p[0] as usize, p[1] as usize, p[2] as usize, p[3] == 1);
+        let death = Death { class: "hang", detail: format!("no progress for {} s on input #{i}; process group killed", CHILD_SILENCE_TIMEOUT.as_secs()) };
+        *st.deaths.entry("hang".into()).or_default() += 1;
+        if running {
+            st.inputs += 1;
+            let (tname, tgroup) = tinfo(targets, ti);
+            st.violations.push(Viol { sig: signature(tgroup, "hang", ""), family: family.into(), index: i, target: tname, len, what: death.detail.clone() });
         }
-    };
-    let death = Death { class: class_detail.0, detail: class_detail.1 };
-    *st.deaths.entry(death.class.to_string()).or_default() += 1;
-    if let Some((i, ti, len)) = current {
-        st.inputs += 1;
-        let (tname, tgroup) = targets.get(ti).map(|t| (t.name.clone(), t.sig_group)).unwrap_or((format!("selftest#{ti}"), "selftest"));
-        st.violations.push(Viol { sig: signature(tgroup, death.class, &death.detail), family: family.into(), index: i, target: tname, len, what: death.detail.clone() });
-        (i + 1, Some(death))
-    } else {
-        (next.max(lo) + usize::from(next <= lo), Some(death))
+        return ((i + 1).max(next).max(lo + 1), Some(death));
     }
+    let detail = match &status {
+        Ok(s) if s.signal().is_some() => format!("zygote killed by signal {}", s.signal().unwrap_or(0)),
+        Ok(s) => format!("zygote exit code {:?}; stderr: {}", s.code(), err_tail.lines().last().unwrap_or("")),
+        Err(e) => format!("wait failed: {e}"),
+    };
+    *st.deaths.entry("zygote".into()).or_default() += 1;
+    st.violations.push(Viol { sig: "harness:zygote-died".into(), family: family.into(), index: next, target: String::new(), len: 0, what: detail.clone() });
+    (next.max(lo + 1), Some(Death { class: "exit", detail }))
 }
 
 /// One ad-hoc (target, input file) run in a fresh limited child.
@@ -511,25 +603,6 @@ fn adhoc(target: &str, input_file: &std::path::Path, targets: &[Target]) -> (usi
     let (n, d) = run_child("adhoc", 0, 1, false, targets, &mut st);
     std::env::remove_var("C13_ADHOC_INPUT_FILE");
     (n, d, st)
-}
-
-fn run_family(family: &str, total: usize, thorough: bool, targets: &[Target]) -> FamilyStats {
-    let mut st = FamilyStats::default();
-    let mut lo = 0usize;
-    let mut restarts = 0;
-    while lo < total {
-        let (next, death) = run_child(family, lo, total, thorough, targets, &mut st);
-        if death.is_none() {
-            break;
-        }
-        restarts += 1;
-        if restarts > 20_000 {
-            st.violations.push(Viol { sig: "harness:too-many-child-restarts".into(), family: family.into(), index: lo, target: String::new(), len: 0, what: String::new() });
-            break;
-        }
-        lo = next;
-    }
-    st
 }
 
 // ---------------------------------------------------------------------------------------------
@@ -727,7 +800,7 @@ fn main() {
         .par_iter()
         .flat_map(|(fi, n)| {
             // split big families into chunks so children run concurrently
-            let chunk = (*n / 16).max(2_000);
+            let chunk = if thorough { (*n / 16).max(5_000) } else { (*n / 3).max(20_000) };
             let mut v = Vec::new();
             let mut lo = 0;
             while lo < *n {
@@ -767,7 +840,6 @@ fn main() {
             (fi, st)
         })
         .collect();
-    let _ = run_family; // (kept for replay tooling)
     let mut viols: Vec<Viol> = Vec::new();
     let mut per_family: BTreeMap<&'static str, serde_json::Value> = BTreeMap::new();
     let mut merged: BTreeMap<usize, FamilyStats> = BTreeMap::new();
